@@ -270,6 +270,9 @@ func runC09(c *c09Case) (v verdict, sig string, err error) {
 
 	// (a) insertion
 	base := c.Sc.Main.Bytes()
+	if len(base) > 65507 {
+		return v, "", nil // does not fit a datagram: outside the domain
+	}
 	cache, addr, e := c.prepare()
 	if e != nil {
 		return v, "announce", e
